@@ -203,6 +203,9 @@ const PASS_POOL: &[&str] = &[
     "--password",
     "a=b c",
     "tab\tand\nnewline",
+    "zero\u{200d}width\u{200c}joiners", // invisible formatting characters are part of the passphrase
+    "\u{200e}ltr-mark-first",
+    "bom\u{feff}inside",
     "\u{e9}",                 // precomposed e-acute
     "e\u{301}",               // decomposed e-acute
     "\u{fb01}sh",             // fi ligature
@@ -690,6 +693,34 @@ fn build_case(u: &mut U, cmd: Cmd, channel: Channel, forced: Option<(u8, Sources
         Cmd::SignMessage | Cmd::HashMessage | Cmd::HashData => Payload::Bytes { hex: hex_lower(&gen_bytes(u)) },
         Cmd::SignTx | Cmd::SignTxSigOnly | Cmd::HashTx => Payload::Tx(txgen::gen_case(u, 64)),
         Cmd::SignTypedData | Cmd::HashTypedData | Cmd::HashTypedDataMsg => Payload::Td(gen_simple_td(u)),
+    };
+    // One signed transaction in four names its sender, as JSON-RPC objects do: the `from` member holds the address
+    // of exactly the selected account, in lower case, upper case or EIP-55 spelling. A tool that ignores the member
+    // (as the unchanged one does) or checks it must sign all the same.
+    let payload = match payload {
+        Payload::Tx(mut t) if matches!(cmd, Cmd::SignTx | Cmd::SignTxSigOnly) && u.ratio(1, 4) => {
+            let path = match &selector {
+                Selector::Default => Some(bip32::default_path(0)),
+                Selector::Index(i) => Some(bip32::default_path(*i)),
+                Selector::Path(p) => Some(p.clone()),
+                _ => None,
+            };
+            let addr = path.filter(|p| p.iter().all(|s| s.index < 0x8000_0000)).and_then(|p| {
+                let seed = bip39::seed_from_normalised(&phrase, &nfkd(&passphrase));
+                let key = bip32::derive(&seed, &p).ok()?;
+                Some(crate::refimpl::address_of(&secp::mul_g(&key)?))
+            });
+            if let (Some(a), Some(i)) = (addr, t.doc.find('{')) {
+                let text = match u.below(3) {
+                    0 => crate::refimpl::hex0x(&a),
+                    1 => format!("0x{}", crate::refimpl::hex0x(&a)[2..].to_uppercase()),
+                    _ => crate::refimpl::eip55(&a),
+                };
+                t.doc.insert_str(i + 1, &format!("\"from\":\"{text}\","));
+            }
+            Payload::Tx(t)
+        }
+        p => p,
     };
     let run = render(cmd, channel, &payload, &phrase, &passphrase, &selector, &sources, salt);
     let hash_run = cmd.matching_hash().map(|h| {
